@@ -98,7 +98,9 @@ def parse_output(text: str) -> Dict[str, HarnessResult]:
             hr.status = 'success' if vm.group(1) == 'SUCCESSFUL' else 'failed'
         if 'CBMC timed out' in body:
             hr.status = 'timeout'
-        if re.search(r'out of memory|std::bad_alloc|CBMC failed|Status: ERROR', body) and hr.status == 'failed':
+        if 'run out of memory' in body:
+            hr.status = 'oom'
+        if re.search(r'std::bad_alloc|CBMC failed|Status: ERROR', body) and hr.status == 'failed':
             hr.status = 'error'
         for fm in re.finditer(r'Failed Checks: (.*)\n(?:\s*File: "(.*?)", line (\d+), in (\S+))?', body):
             d = fm.group(1).strip()
